@@ -584,6 +584,7 @@ func main() {
 	c.Set("impl_level_drift", drifts.Load())
 	c.Set("impl_level_drift_samples", driftSamples)
 	c.Set("impl_level_drift_by_class", driftBy)
+	c.Set("undecided_observations", observations())
 	c.Set("spellings_per_request", variants)
 	c.Set("replies_with_duplicate_content_type_header", dupCT.Load())
 	c.Set("deviation_lines_observed", devSeen.Load())
